@@ -146,8 +146,11 @@ def check_program(ctx, FST, seg, label, rnd, max_edits):
             root = FST(seg, 'exec')
             node = resolve(root.a, hit[1]).f
             case = {'src': seg, 'ln': ln, 'a': a, 'b': b, 'text': text, 'path': hit[1], 'label': label}
+            from ..base import alias_coords
+            spelled = alias_coords(rnd, lines, ln, a, ln, b, 0.15)
+            case['spelled'] = list(spelled)
             try:
-                node.put_src(text, ln, a, ln, b, 'offset')
+                node.put_src(text, *spelled, 'offset')
             except Exception as e:
                 ctx.violation(f'offset-put-raised:{type(e).__name__}', f'{type(hit[0]).__name__}.put_src({text!r}, {ln}, {a}, {ln}, {b}, "offset") raised {type(e).__name__}: {e} on {short(seg, 200)!r}', case)
                 continue
